@@ -604,6 +604,9 @@ def _sleep_us(us: int) -> Any:
     return asyncio.sleep(us / 1e6)
 
 
+_real_sleep = asyncio.sleep
+
+
 def make_dep_funcs(world: World, tspec: dict) -> Dict[str, Any]:
     nodes = {n["id"]: n for n in tspec.get("deps", [])}
     funcs: Dict[str, Any] = {}
@@ -885,6 +888,10 @@ def install_seams() -> None:
     mod = types.ModuleType(TASKS_MODULE)
     sys.modules[TASKS_MODULE] = mod
     logging.disable(logging.CRITICAL)
+    # coroutines of killed / abandoned tasks are closed by the garbage collector after
+    # the run; taskiq's `except BaseException` keeps running them a little further with
+    # no loop. The recorder is closed by then; keep stderr clean.
+    sys.unraisablehook = lambda *a, **k: None
 
     def sim_time() -> float:
         try:
